@@ -105,6 +105,7 @@ def run_seed(name, *parts):
 
 def load_family(spec):
   """'c04:queue' -> family object."""
+  setup()   # scenario modules import the (fake) courier at import time
   mod, fam = spec.split(':')
   m = importlib.import_module(f'scenarios.{mod}')
   return m.FAMILIES[fam]
@@ -127,7 +128,8 @@ def execute(family, cfg, chooser, *, max_steps=None, real_timeout=120.0):
   s = sched.Sim(
       chooser,
       max_steps=max_steps or simcfg.get('max_steps', 300_000),
-      spin_k=simcfg.get('spin_k', 300),
+      # with function-entry pre-emption one operation costs many more steps
+      spin_k=simcfg.get('spin_k', 300) * (12 if simcfg.get('fine') else 1),
       real_timeout=real_timeout,
   )
   fine = bool(simcfg.get('fine'))
